@@ -39,6 +39,12 @@ def codec_pairs(ctx):
         if ctx.has(r) and t not in (SC,):
             out.append(('codec ' + t, w, r))
     out.append(('disk message', 'server::streaming::models::messages::RetainedMessage::extend', 'server::streaming::models::messages::RetainedMessage::try_from_bytes'))
+    out.append(('disk batch header', 'server::streaming::batching::message_batch::RetainedMessageBatch::header_as_bytes', 'server::streaming::segments::logs::log_reader::SegmentLogReader::read_next_batch'))
+    out.append(('disk index entry', 'server::streaming::segments::indexes::index_writer::SegmentIndexWriter::save_index', 'server::streaming::segments::indexes::index_reader::parse_index'))
+    out.append(('index rebuild', 'server::compat::index_rebuilding::index_rebuilder::IndexRebuilder::write_index_entry', 'server::streaming::segments::indexes::index_reader::parse_index'))
+    out.append(('index rebuild header', 'server::streaming::batching::message_batch::RetainedMessageBatch::header_as_bytes', 'server::compat::index_rebuilding::index_rebuilder::IndexRebuilder::read_batch_header'))
+    out.append(('journal entry', '<server::state::entry::StateEntry as iggy::bytes_serializable::BytesSerializable>::to_bytes', '<server::state::file::FileState as server::state::State>::load_entries'))
+    out.append(('consumer offset file', '<server::streaming::partitions::storage::FilePartitionStorage as server::streaming::storage::PartitionStorage>::save_consumer_offset', '<server::streaming::partitions::storage::FilePartitionStorage as server::streaming::storage::PartitionStorage>::load_consumer_offsets'))
     return out
 
 
@@ -125,6 +131,25 @@ def run(ctx, rep):
         w, r = pairs[name]
         a = wire.norm(wire.sequence(ctx, w, helpers)); b = wire.norm(wire.sequence(ctx, r, helpers))
         rep.ob('R13.b', w, name, a == b, None, 'new codec pair: writes [%s], reads [%s]' % (a, b))
+
+    rep.rule('R13.f', 'named layouts: the fields a writer emits, in order, are the fields the reader stores the values into (compared on the names both sides use; catches two same-width fields written or read in each other\'s place)', floor=30, analysis='A11')
+    total = 0
+    for name, ref in sorted(frozen['pairs'].items()):
+        nm = ref.get('names')
+        if not nm or name not in pairs or not ctx.has(ref['writer']) or not ctx.has(ref['reader']):
+            continue
+        nw, nr = wire.named_writer(ctx, ref['writer'], helpers), wire.named_reader(ctx, ref['reader'], helpers)
+        ok, x, y = wire.named_agreement(nw, nr)
+        total += len(x)
+        if nm['mode'] == 'equal':
+            rep.ob('R13.f', ref['writer'], name, ok, None, 'fields in order: %s' % ' '.join(x)[:120] if ok else
+                   'the writer emits the fields [%s] but the reader stores the values as [%s]' % (' '.join(x), ' '.join(y)))
+        else:
+            ok2 = x == nm['w'] and y == nm['r']
+            rep.ob('R13.f', ref['writer'], name, ok2, None, 'both sides keep their pinned field order' if ok2 else
+                   'field order drifted from the pinned reference: writer [%s] (pinned [%s]); reader [%s] (pinned [%s])' % (' '.join(x), ' '.join(nm['w']), ' '.join(y), ' '.join(nm['r'])))
+    want = sum(len(ref['names']['w']) for ref in frozen['pairs'].values() if ref.get('names'))
+    rep.ob('R13.f', 'iggy::bytes_serializable', 'labelled fields', total * 10 >= want * 8, None, '%d field positions compared (reference %d)' % (total, want))
 
     rep.rule('R13.b2', 'the count written in front of an element loop is the length of the collection the loop writes', floor=7, analysis='A9')
     for fn, ref in sorted(frozen['count_prefixes'].items()):
